@@ -148,7 +148,7 @@ CHECKS.update({
          'compile_warrior gives the same result for both texts; THE PASSES ADD UP (C08_passes_partial): the driver returns exactly the unrolled stream whenever it has more than k passes; ONE PASS OF THE DRIVER (C08_pass_driver_partial), symbol scanner included: the scanner run symbolically over the lines in front of the block (labels, colons, comments, EQU values with comments skipped, redefinition error, END line hiding the block, the FOR itself); '
          'ONE PASS of the expander as a whole (C08_one_pass_partial) - for any lines in front of the first block, its header, a body of arbitrary lines with properly nested inner blocks, the closing ROF and the rest of the stream, the pass ends and sends exactly the front lines (labels re-attached), the block written out count times with the block labels in place, and the rest unchanged. Also, for every stream, label list and count: the body is sent count times with the counter replaced by 1..count (nothing for count 0) and all other tokens kept; '
          'from the ROF line on (also when it is the last line and lacks a newline) exactly the block is sent - first iteration with the labels written before the counter standing in front of the body line found for them, iterations 2..count plain, with a count below one only the labels - and then the rest is copied unchanged; '
-         'on the FOR line the count is the value of the expression over the pre-scanned EQU symbols and the predefined constants, the name before FOR is the counter, earlier names are block labels. A concrete program is shown to unroll and to be assembled like its unrolling BY the theorem. FOR THE SIMPLEST BLOCKS THE RELATION IS CONSTRUCTED (C08_plain_block_unrolls_partial): every block without labels or counter whose body is unlabelled lines not starting with FOR or ROF is replaced in one pass by its body written out count times, with a counter (`c FOR count`) the counter is replaced by 1 .. count (C08_counter_block_unrolls_partial), and with a count <= 0 the block disappears whatever its body is (C08_zero_block_unrolls_partial: the comment idiom). '
+         'on the FOR line the count is the value of the expression over the pre-scanned EQU symbols and the predefined constants, the name before FOR is the counter, earlier names are block labels. A concrete program is shown to unroll and to be assembled like its unrolling BY the theorem. FOR THE SIMPLEST BLOCKS THE RELATION IS CONSTRUCTED (C08_plain_block_unrolls_partial): every block without labels or counter whose body is unlabelled lines not starting with FOR or ROF is replaced in one pass by its body written out count times, with a counter (`c FOR count`) the counter is replaced by 1 .. count (C08_counter_block_unrolls_partial) and each written-out line is the rendering of the abstractly substituted line of Render.unroll (C08_copy_renders_partial), and with a count <= 0 the block disappears whatever its body is (C08_zero_block_unrolls_partial: the comment idiom). '
          'That a pass and the pass driver always end is part of C05. NOT proved: that the relation unrolls holds between the rendering of every abstract program and the rendering of its Render.unroll (each instance is a finite derivation), and the composition with the reference meaning (kept as C08_full_statement). That statement is decided on every run by the correspondence: generated programs (blocks in sequence, nesting to 3, counts 0..6 from literals and EQUs, counters in inner/outer expressions, block labels) and their extracted unrollings '
          'assembled by gmars and by the extracted model, compared with each other and with the extracted meaning.'),
    design_ref='DESIGN.md 0.2, 5 C08', note=NOTE_STD + ' The link between the abstract unroller and the token-level unrolling relation is covered by differential testing; the expander, the scanner and the pass driver are theorems.',
